@@ -459,8 +459,12 @@ func run(tier, path string) {
 	}
 	x.rowsOps(2, (mult+3)/4)
 	x.rowsOps(5, (mult+3)/4)
-	x.reuseSystematic(4)
-	x.reuseSystematic(2)
+	pats := sysPatterns
+	if tier == "thorough" {
+		pats = append(append([]string{}, sysPatterns...), allPatterns(4)...) // every order of value / null / empty over 1..4 rows
+	}
+	x.reuseSystematic(4, pats)
+	x.reuseSystematic(2, sysPatterns)
 	for v := 3; v <= 4; v++ {
 		x.reuseOps(v, mult)
 	}
